@@ -26,7 +26,9 @@ fn serials(sim: &Sim<Tracked>) -> HashMap<usize, u64> {
     let mut m = HashMap::new();
     for (i, n) in sim.arena.iter().enumerate() {
         if !n.is_removed() {
-            m.insert(i + 1, n.get().serial);
+            // a live node whose payload cannot be read (overwritten by a free-list link) gets serial 0
+            let ser = std::panic::catch_unwind(std::panic::AssertUnwindSafe(|| n.get().serial)).unwrap_or(0);
+            m.insert(i + 1, ser);
         }
     }
     m
